@@ -160,6 +160,35 @@ class _Subst(ast.NodeTransformer):
                 return copy.deepcopy(self.attrs[t])
         return self.generic_visit(node)
 
+    def visit_Call(self, node):
+        node = self.generic_visit(node)
+        # f(*(<a>, <b>), **{'k': <v>}) is f(<a>, <b>, k=<v>)
+        if any(isinstance(a, ast.Starred) and isinstance(
+                a.value, (ast.Tuple, ast.List)) for a in node.args):
+            args = []
+            for a in node.args:
+                if isinstance(a, ast.Starred) and isinstance(
+                        a.value, (ast.Tuple, ast.List)) and not any(
+                            isinstance(x, ast.Starred)
+                            for x in a.value.elts):
+                    args.extend(a.value.elts)
+                else:
+                    args.append(a)
+            node.args = args
+        if any(k.arg is None and isinstance(k.value, ast.Dict)
+               for k in node.keywords):
+            kws = []
+            for k in node.keywords:
+                if k.arg is None and isinstance(k.value, ast.Dict) and all(
+                        isinstance(x, ast.Constant) and isinstance(
+                            x.value, str) for x in k.value.keys):
+                    for kk, vv in zip(k.value.keys, k.value.values):
+                        kws.append(ast.keyword(arg=kk.value, value=vv))
+                else:
+                    kws.append(k)
+            node.keywords = kws
+        return node
+
     def _comp(self, node):
         bound = set()
         for g in node.generators:
@@ -1049,11 +1078,14 @@ class Enumerator:
         elif a.vararg is not None:
             env[a.vararg.arg] = ast.Tuple(elts=[], ctx=ast.Load())
         kwonly = [x.arg for x in a.kwonlyargs]
+        extra_kw = []
         for k in call.keywords:
             if k.arg in params or k.arg in kwonly:
                 env[k.arg] = k.value
             elif a.kwarg is None:
                 return None
+            else:
+                extra_kw.append(k)
         for p, d in callee.defaults().items():
             if p not in env:
                 env[p] = d
@@ -1061,7 +1093,9 @@ class Enumerator:
             if p not in env:
                 return None
         if a.kwarg is not None:
-            env[a.kwarg.arg] = ast.Dict(keys=[], values=[])
+            env[a.kwarg.arg] = ast.Dict(
+                keys=[ast.Constant(value=k.arg) for k in extra_kw],
+                values=[k.value for k in extra_kw])
         return env
 
     def _inline(self, call, callee, st, handlers):
